@@ -311,6 +311,37 @@ impl fmt::Debug for MdnsPeer {
     }
 }
 
+/// Verification hook: what [`MdnsPacket::new_from_bytes`] made of a packet.
+#[cfg(libp2p_verif)]
+#[derive(Debug)]
+pub enum VerifPacket {
+    Query { query_id: u16 },
+    ServiceDiscovery { query_id: u16 },
+    /// `(peer id, addresses, ttl in seconds)` of every peer reported by the response.
+    Response(Vec<(PeerId, Vec<Multiaddr>, u32)>),
+}
+
+/// Verification hook: visibility shim over [`MdnsPacket::new_from_bytes`] and the
+/// accessors of the parsed packet.
+#[cfg(libp2p_verif)]
+pub fn verif_parse(buf: &[u8], from: SocketAddr) -> Result<Option<VerifPacket>, String> {
+    match MdnsPacket::new_from_bytes(buf, from) {
+        Err(e) => Err(e.to_string()),
+        Ok(None) => Ok(None),
+        Ok(Some(MdnsPacket::Query(q))) => Ok(Some(VerifPacket::Query {
+            query_id: q.query_id(),
+        })),
+        Ok(Some(MdnsPacket::ServiceDiscovery(q))) => Ok(Some(VerifPacket::ServiceDiscovery {
+            query_id: q.query_id(),
+        })),
+        Ok(Some(MdnsPacket::Response(r))) => Ok(Some(VerifPacket::Response(
+            r.discovered_peers()
+                .map(|p| (*p.id(), p.addresses().clone(), p.ttl))
+                .collect(),
+        ))),
+    }
+}
+
 #[cfg(test)]
 mod tests {
     use super::{super::dns::build_query_response, *};
